@@ -163,7 +163,7 @@ def discoverServer (maxRetries : Int) (svr : Server) : Prog Bool :=
   | .error _ => pure false
   | .ok _ =>
     .call (.updateServer { svr with status := Status.update svr.status Status.portRetry } fun u =>
-        if Status.has u.status (Status.details ||| Status.portRetry ||| Status.detailsRetry) then none
+        if Status.hasAny u.status (Status.details ||| Status.portRetry ||| Status.detailsRetry) then none
         else some { u with status := Status.update u.status Status.portRetry }) fun r =>
     match r with
     | .error _ => pure false
